@@ -47,6 +47,24 @@ reg(
     "DESIGN.md 5/C02",
 )
 
+reg(
+    "C16",
+    "bounded exhaustive enumeration of all label arrays (1-D length <= 3/4, 2-D up to 2x2) over every (dtype, sentinel) encoding; encoder explored as a 3-step machine; reference model compared on every case",
+    "Every small label array over every supported label type / sentinel combination (ndarray and list containers) is run through "
+    "is_labeled, is_unlabeled, labeled_indices, unlabeled_indices and through ExtLabelEncoder fit -> transform (also of other "
+    "arrays) -> inverse_transform, and compared with a boring reference (is_missing, sorted classes).",
+    "Array sizes and alphabets are bounded; numpy / sklearn.LabelEncoder trusted.",
+    "DESIGN.md 5/C16",
+)
+reg(
+    "C17",
+    "bounded exhaustive enumeration of all label / weight matrices up to 3x2 over {missing, 3 classes} x encodings x normalize modes; tie tapes for majority_vote; nested-loop counting reference compared on every case",
+    "compute_vote_vectors, majority_vote (every resolution of every tie) and ext_confusion_matrix are executed on every small "
+    "label matrix / weight matrix / normalisation mode and compared with plain counting.",
+    "Matrix sizes, class count (3) and weight alphabet are bounded; 0/0 entries of normalised confusion matrices are only required to be finite.",
+    "DESIGN.md 5/C17",
+)
+
 
 def main():
     props = [json.loads(l) for l in open(os.path.join(HOME, "properties.jsonl"))]
